@@ -140,7 +140,11 @@ class SpecMixin:
                     continue
                 a, b = self.field(st, fid), self.field(old, fid)
                 if a is not b:
-                    terms.append(a == b)
+                    # objects allocated by the function itself are not observable: compare on pre-existing objects only
+                    r = z3.Const('r!hu%d' % self.counter, Ref)
+                    self.counter += 1
+                    self.uses_alloc = True
+                    terms.append(z3.ForAll([r], z3.Implies(alloc0(r), a[r] == b[r])))
             return z3.And(*terms) if terms else True
         if nm == 'length':
             return self.call_builtin('len', [self.ev(node.args[0], st, fr)], {}, st, fr, node)
@@ -176,6 +180,8 @@ class SpecMixin:
             if nm == 'fp_same':
                 return a == b
             return {'fp_ge': z3.fpGEQ, 'fp_gt': z3.fpGT, 'fp_lt': z3.fpLT, 'fp_le': z3.fpLEQ, 'fp_eq': z3.fpEQ}[nm](a, b)
+        if nm == 'isinst':
+            return self.isinstance_name(self.ev(node.args[0], st, fr), node.args[1].value, st)
         if nm == 'cint':
             return self.coerce_ctype(self.ev(node.args[0], st, fr), 'int')
         if nm == 'to_int':
